@@ -435,3 +435,83 @@ Proof.
   destruct (fold_left mean_step (map Some (defined outs)) (F64.zero, F64.zero)) as [a c].
   simpl in R. destruct (F64.gtb c F64.zero); inversion H; subst. reflexivity.
 Qed.
+
+(* ------------------------------------------------------------------ *)
+(** * the matrix holds one count per training example                  *)
+(* ------------------------------------------------------------------ *)
+Definition mtotal (m : matrix) : Z := fold_right (fun r acc => row_total r + acc) 0 m.
+
+Lemma row_total_cons : forall a r, row_total (a :: r) = a + row_total r.
+Proof. intros. unfold row_total. simpl. rewrite fold_add_shift. lia. Qed.
+
+Lemma row_total_inc : forall r j c, nth_error r j = Some c -> row_total (set_nth r j (c + 1)) = row_total r + 1.
+Proof.
+  induction r as [|a r IH]; intros [|j] c H; simpl in H; try discriminate.
+  - inversion H; subst. simpl set_nth. rewrite !row_total_cons. lia.
+  - simpl set_nth. rewrite !row_total_cons. rewrite (IH _ _ H). lia.
+Qed.
+
+Lemma inc_cell_mtotal : forall m i j m', inc_cell m i j = Some m' -> mtotal m' = mtotal m + 1.
+Proof.
+  intros m i j m' H. unfold inc_cell in H.
+  destruct (nth_error m i) as [r|] eqn:E; [|discriminate].
+  destruct (nth_error r j) as [c|] eqn:E2; [|discriminate]. inversion H; subst; clear H.
+  revert i E. induction m as [|a m IH]; intros [|i] E; simpl in E; try discriminate.
+  - inversion E; subst. simpl. rewrite (row_total_inc _ _ _ E2). lia.
+  - simpl. rewrite (IH _ E). lia.
+Qed.
+
+Lemma fill_counts_mtotal : forall at_ ns train m m',
+  fill_counts at_ ns m train = Some m' -> mtotal m' = mtotal m + Z.of_nat (length train).
+Proof.
+  induction train as [|[o lab] t IH]; intros m m' H; simpl in H.
+  - inversion H; subst. simpl. lia.
+  - destruct (slot at_ ns o) as [s|]; [|discriminate].
+    destruct (inc_cell m s lab) as [m1|] eqn:E; [|discriminate].
+    rewrite (IH _ _ H), (inc_cell_mtotal _ _ _ _ E). simpl length. lia.
+Qed.
+
+Lemma zero_matrix_mtotal : forall ns classes, mtotal (zero_matrix ns classes) = 0.
+Proof.
+  intros. unfold zero_matrix. induction ns; simpl; auto. rewrite IHns.
+  unfold row_total. rewrite repeat0_sum. reflexivity.
+Qed.
+
+Lemma row_total_nonneg : forall r, Forall (fun c => 0 <= c) r -> 0 <= row_total r.
+Proof. induction r as [|a r IH]; intros H; [unfold row_total; simpl; lia|]. inversion H; subst. rewrite row_total_cons. specialize (IH H3). lia. Qed.
+
+Lemma mtotal_nonneg : forall m, nonneg_matrix m -> 0 <= mtotal m.
+Proof.
+  induction m as [|a m IH]; intros H; simpl; [lia|]. inversion H; subst.
+  pose proof (row_total_nonneg a H2). specialize (IH H3). lia.
+Qed.
+
+Lemma row_le_mtotal : forall m s, nonneg_matrix m -> row_total (nth s m []) <= mtotal m.
+Proof.
+  induction m as [|a m IH]; intros s H.
+  - destruct s; simpl; unfold row_total; simpl; lia.
+  - inversion H; subst. pose proof (row_total_nonneg a H2). pose proof (mtotal_nonneg m H3).
+    destruct s; simpl; [lia|]. specialize (IH s H3). lia.
+Qed.
+
+Lemma dyn_tag_shape_bounded : forall at_ classes x_slot train d o lab c,
+  dyn_build at_ classes x_slot train = Some d ->
+  dyn_tag at_ d o = Some (lab, c) ->
+  c = L.half \/ exists ok total, 0 <= ok <= total /\ 0 < total /\ total <= Z.of_nat (length train) /\
+                                 c = F64.div (F64.of_Z ok) (F64.of_Z total).
+Proof.
+  intros at_ classes x_slot train d o lab c Hb Ht.
+  pose proof (dyn_build_nonneg _ _ _ _ _ Hb) as Hn.
+  assert (Hm : mtotal (dm_matrix d) = Z.of_nat (length train)).
+  { unfold dyn_build in Hb. destruct (fill_counts _ _ _ _) as [m|] eqn:E; [|discriminate].
+    inversion Hb; subst; simpl. rewrite (fill_counts_mtotal _ _ _ _ _ E), zero_matrix_mtotal. lia. }
+  unfold dyn_tag in Ht. destruct (slot at_ (dm_ns d) o) as [s|]; [|discriminate].
+  inversion Ht; subst; clear Ht.
+  set (r := nth s (dm_matrix d) []).
+  assert (Hr : Forall (fun c => 0 <= c) r).
+  { subst r. apply Forall_nth_default; auto. }
+  destruct (row_total r =? 0) eqn:E; [left; reflexivity|right].
+  pose proof (row_total_bounds r Hr (nth s (dm_slot_class d) 0%nat)).
+  pose proof (row_le_mtotal (dm_matrix d) s Hn). fold r in H0.
+  eexists _, _. split; [|split; [|split; [|reflexivity]]]; lia.
+Qed.
